@@ -19,6 +19,10 @@ CLAIMED = {
         text="Proof of post-conditions written from the cEMI bit layout (not from the code): flag constructors/accessors over their whole 8-bit domains (Control1Prio, Control2Hops, Hops incl. Hops(Control2Hops(h)) == min(h,7), IsGroupAddr, IsGroupCommand); byte-exact layout of Info.Pack, AppData.Pack, ControlData.Pack and of LData.Pack (control fields, big-endian addresses, length octet, TPCI/APCI split, payload placement); and exact field extraction from any accepted byte string by Info.Unpack, unpackTransportUnit and LData.Unpack (the latter verified against callee bodies, 'exact' mode).",
         note="Assumes as C01/C15. LData.Pack's post-condition restates the additional-info length octet but not the info bytes (those are Info.Pack's contract; the quantified restatement did not discharge). LData.Pack obligations need up to ~60 s each on z3 5.1 (timeout 150 s in the contract). The message-code octet is written by cemi.Pack (inline dispatcher) and covered by C15/C02 only.",
         ref="§3 C11"),
+    "C02": dict(
+        text="Proof, by generated round-trip lemmas verified against the real encoder and decoder bodies ('exact' mode: AllocAndPack, knxnet.Unpack, cemi.Pack/Unpack and every Pack/Unpack below them are inlined; solver-aided pruning of infeasible decoder paths): for ConnReq, ConnStateReq/Res, DiscReq/Res, TunnelRes, SearchReq, DescriptionReq and for TunnelReq and RoutingInd carrying each of L_Data.req/con/ind (application and control transport units), L_Raw.req/con/ind, L_Busmon.ind and unsupported codes, with every field symbolic (additional info 0..255 bytes, payload 1..255 bytes, all 8/16-bit fields): Unpack(AllocAndPack(v)) succeeds, consumes the whole encoding, yields the same service type and message code and equal fields. ConnRes: channel, status and (status 0) control. Decode/re-encode/decode stability for the eight flat service types.",
+        note="Assumes as C01/C15. NOT covered yet: SearchRes/DescriptionRes (friendly name passes through the charmap codec, an assumed contract without an inverse), decode-re-encode stability of the cEMI carriers. ConnRes: the decoder does not read the 4-byte connection response data block, so the lemma states only the fields it reads. Payload length 255 rather than 254 is allowed by the lemma precondition (the code accepts it).",
+        ref="§3 C02"),
     "C06": dict(
         text="Proof, by one generated lemma per registered type (152 types; statement taken from the property: Unpack(b) ok ==> Unpack(Pack(v)) ok with the same value, plus byte identity of the re-encoding for the exact integer, bit-field, enumeration, character and IEEE formats), verified against the real Pack/Unpack bodies ('exact' mode) for every payload of every length. For the 20 two-octet float types 9.xxx the round trip is decided by exhaustive execution of the real code over all 65,536 payloads of each type (complete, labelled bounded stand-in; per-exponent deductive slices of the codec run in the thorough tier). For 16.000/16.001 only a BOUNDED stand-in exists.",
         note="Assumes as C08. BOUNDED: 16.000/16.001 (two adjacent octets over all values at every position, three fill patterns) - not a proof; 9.xxx exhaustive over the complete 2^16 domain per type but by execution, not by a discharged obligation. Thorough tier adds lemmaF16rt_e0..e15 (deductive round trip of packF16/unpackF16 per exponent, bit-precise FloatingPoint theory, up to 25 min each).",
